@@ -19,6 +19,7 @@
 #include <etl/bitset.hpp>
 #include <etl/string.hpp>
 #include <etl/string_view.hpp>
+#include <etl/utility.hpp>
 
 #include "rc.hpp"
 
@@ -28,6 +29,9 @@
 
 #ifndef C17_WIDTHS
     #define C17_WIDTHS 9
+#endif
+#ifndef C17_DENSE // widths that only get the light "dense contents + whole-set operations" runner
+    #define C17_DENSE 16
 #endif
 
 namespace {
@@ -55,13 +59,19 @@ auto splitmix(std::uint64_t z) -> std::uint64_t
 
 // ------------------------------------------------------------------ observations (POD) and their judgement (no templates)
 struct Bits {
-    std::uint64_t w[3]{0, 0, 0};
+    std::uint64_t w[16]{}; // up to 1024 bits
     auto put(std::size_t i, bool v) -> void
     {
         if (v) { w[i / 64] |= (std::uint64_t{1} << (i % 64)); }
     }
     [[nodiscard]] auto get(std::size_t i) const -> bool { return ((w[i / 64] >> (i % 64)) & 1U) != 0; }
-    auto operator==(Bits const& o) const -> bool { return w[0] == o.w[0] && w[1] == o.w[1] && w[2] == o.w[2]; }
+    auto operator==(Bits const& o) const -> bool
+    {
+        for (int i = 0; i < 16; ++i) {
+            if (w[i] != o.w[i]) { return false; }
+        }
+        return true;
+    }
 };
 auto show_bits(Bits const& b, std::size_t n) -> std::string // most significant bit first, like to_string
 {
@@ -111,10 +121,37 @@ auto judge(char const* name, Snap const& e, Snap const& r) -> std::string
 // ------------------------------------------------------------------ ops
 enum Code : std::uint32_t {
     SET_ALL, RESET_ALL, FLIP_ALL, SET_POS, RESET_POS, FLIP_POS, REF_ASSIGN_BOOL, REF_ASSIGN_REF, REF_FLIP, REF_NOT, AND_ASSIGN, OR_ASSIGN, XOR_ASSIGN, NOT, AND, OR, XOR, EQ, CTOR_ULL, COPY, OBSERVE, CTOR_STRING, CTOR_CSTR,
+    SWAP, CTOR_STRING_CI, CTOR_STRING_W, CTOR_STRING_U16, // appended later: the numbers of the older codes are used by the replay corpus
     NCODES
 };
 char const* const code_names[] = {"set()", "reset()", "flip()", "set(pos,v)", "reset(pos)", "flip(pos)", "b[i]=v", "b[i]=c[j]", "b[i].flip()", "~b[i]", "&=", "|=", "^=", "~", "&", "|", "^", "==", "ctor(ull)", "copy-assign", "observe",
-    "ctor(string_view,pos,n,zero,one)", "ctor(char const*,n,zero,one)"};
+    "ctor(string_view,pos,n,zero,one)", "ctor(char const*,n,zero,one)", "swap", "ctor(basic_string_view<char,case-insensitive traits>,pos,n,'N','y')", "ctor(wstring_view,pos,n,zero,one)", "ctor(u16string_view,pos,n,zero,one)"};
+
+// character traits whose eq() is coarser than ==: the string constructors must compare with Traits::eq
+constexpr auto ci_lower(char c) -> char { return (c >= 'A' && c <= 'Z') ? static_cast<char>(c - 'A' + 'a') : c; }
+struct StdCi : std::char_traits<char> {
+    static auto eq(char a, char b) noexcept -> bool { return ci_lower(a) == ci_lower(b); }
+    static auto lt(char a, char b) noexcept -> bool { return ci_lower(a) < ci_lower(b); }
+    static auto compare(char const* a, char const* b, std::size_t n) -> int
+    {
+        for (std::size_t i = 0; i < n; ++i) {
+            if (lt(a[i], b[i])) { return -1; }
+            if (lt(b[i], a[i])) { return 1; }
+        }
+        return 0;
+    }
+    static auto find(char const* s, std::size_t n, char const& c) -> char const*
+    {
+        for (std::size_t i = 0; i < n; ++i) {
+            if (eq(s[i], c)) { return s + i; }
+        }
+        return nullptr;
+    }
+};
+struct EtlCi : etl::char_traits<char> {
+    static constexpr auto eq(char a, char b) noexcept -> bool { return ci_lower(a) == ci_lower(b); }
+    static constexpr auto lt(char a, char b) noexcept -> bool { return ci_lower(a) < ci_lower(b); }
+};
 
 // value of a CTOR_ULL op: a%4 selects literal / all ones / shifted / hashed (so that small raw arguments give small and
 // boundary values and large ones give dense 64-bit patterns, including bits at and above N)
@@ -303,10 +340,26 @@ struct Width {
     }
 
     template <typename A>
+    struct Dense; // light runner, defined below
+
+    template <typename A>
     struct Runner {
         using T = typename A::T;
 
         static auto check(char const* name, T& x, Ref const& m, bool full) -> std::string { return judge(name, snap_etl<A>(x, m, full), snap_ref(m, full)); }
+
+        // string constructor from a view of wide characters (default traits), same text as the char version
+        template <typename CharT>
+        static auto wide_ctor(RawOp const& op, T& x, Ref& mx, Flags& fl) -> void
+        {
+            auto const t = make_text(op, false, N);
+            std::basic_string<CharT> ws;
+            for (char c : t.s) { ws.push_back(static_cast<CharT>(c)); }
+            etl::basic_string_view<CharT> const sv(ws.data(), ws.size());
+            x          = T(sv, t.pos, t.n_is_npos ? etl::basic_string_view<CharT>::npos : t.n, static_cast<CharT>(t.zero), static_cast<CharT>(t.one));
+            mx         = Ref(ws, t.pos, t.n, static_cast<CharT>(t.zero), static_cast<CharT>(t.one));
+            fl.strings = true;
+        }
 
         // check_from: ops before this index are applied without comparing (the exhaustive enumeration checks its
         // constructor ops in their own cases)
@@ -335,7 +388,7 @@ struct Width {
                 Ref& mx       = tb ? mb : ma;
                 Ref& my       = tb ? ma : mb;
                 auto code     = op.code % NCODES;
-                if (!A::full_api && (code == CTOR_STRING || code == CTOR_CSTR)) { code = CTOR_ULL; } // basic_bitset has no string constructors
+                if (!A::full_api && (code == CTOR_STRING || code == CTOR_CSTR || code == CTOR_STRING_CI || code == CTOR_STRING_W || code == CTOR_STRING_U16)) { code = CTOR_ULL; } // basic_bitset has no string constructors
                 std::size_t const i = op.a % N;
                 std::size_t const j = op.b % N;
                 bool const v        = (op.b & 1U) != 0;
@@ -498,9 +551,59 @@ struct Width {
                     break;
                 }
                 case COPY: {
-                    y         = x;
-                    my        = mx;
-                    touches_y = true;
+                    if (self) { // x = x
+                        T& alias = x;
+                        x        = alias;
+                    } else {
+                        y         = x;
+                        my        = mx;
+                        touches_y = true;
+                    }
+                    break;
+                }
+                case SWAP: {
+                    using etl::swap;
+                    if (self) {
+                        T& alias = x;
+                        swap(x, alias);
+                    } else {
+                        swap(x, y);
+                        std::swap(mx, my);
+                        touches_y = true;
+                    }
+                    break;
+                }
+                case CTOR_STRING_CI: {
+                    if constexpr (A::full_api) {
+                        // digits are 'y'/'Y' (one) and 'n'/'N' (zero); the constructor is told zero = 'N', one = 'y' and must
+                        // compare with Traits::eq, exactly like std::bitset built from a basic_string with the same traits
+                        auto const t = make_text(op, false, N);
+                        std::string txt;
+                        for (std::size_t q = 0; q < t.s.size(); ++q) {
+                            bool const upper = ((splitmix(op.a * 31U + q) >> 7) & 1U) != 0;
+                            char const c     = t.s[q];
+                            if (q < t.pos) {
+                                txt += 'x';
+                            } else if (c == 'y' || c == 'z') { // the two characters behind n (make_text appends "yz"): must not look like a digit
+                                txt += 'q';
+                            } else {
+                                txt += c == t.one ? (upper ? 'Y' : 'y') : (upper ? 'N' : 'n');
+                            }
+                        }
+                        etl::basic_string_view<char, EtlCi> const sv(txt.data(), txt.size());
+                        std::basic_string<char, StdCi> const ms(txt.data(), txt.size());
+                        x          = T(sv, t.pos, t.n_is_npos ? etl::basic_string_view<char, EtlCi>::npos : t.n, 'N', 'y');
+                        mx         = Ref(ms, t.pos, t.n, 'N', 'y');
+                        fl.strings = true;
+                    }
+                    break;
+                }
+                case CTOR_STRING_W: {
+                    if constexpr (A::full_api) { wide_ctor<wchar_t>(op, x, mx, fl); }
+                    break;
+                }
+                case CTOR_STRING_U16: {
+                    if constexpr (A::full_api) { wide_ctor<char16_t>(op, x, mx, fl); }
                     break;
                 }
                 case OBSERVE: break;
@@ -562,11 +665,197 @@ struct Width {
     };
 };
 
+
+// ------------------------------------------------------------------ light runner for many more widths (up to 1000 bits)
+// Dense contents (bit density 0, 1/8, 1/2, 7/8, 1) and whole-set operations followed by count / all / any / none / == and
+// every bit: these are plain word loops, so the per-width cost is kept small (no strings, no proxies).
+enum DCode : std::uint32_t { D_FILL, D_SET_ALL, D_RESET_ALL, D_FLIP_ALL, D_NOT, D_AND_ASSIGN, D_OR_ASSIGN, D_XOR_ASSIGN, D_COPY, D_EQ, D_FLIP_POS, D_SET_POS, D_AND, D_OR, D_XOR, D_SWAP, D_NCODES };
+char const* const dcode_names[] = {"fill(density)", "set()", "reset()", "flip()", "~", "&=", "|=", "^=", "copy-assign", "==", "flip(pos)", "set(pos,v)", "&", "|", "^", "swap"};
+auto dense_bit(std::uint32_t density, std::uint32_t seed, std::size_t i) -> bool
+{
+    auto const r = splitmix((static_cast<std::uint64_t>(seed) << 20) + i) & 7U;
+    switch (density % 5U) {
+    case 0: return false;
+    case 1: return r == 0;
+    case 2: return r < 4;
+    case 3: return r != 0;
+    default: return true;
+    }
+}
+
+template <std::size_t N>
+template <typename A>
+struct Width<N>::Dense {
+    using T = typename A::T;
+    static auto snap(T& x, Ref const& m) -> Snap
+    {
+        T const& cx = x;
+        Snap s;
+        s.n    = N;
+        s.full = true;
+        for (std::size_t i = 0; i < N; ++i) { s.by_test.put(i, A::test(cx, i)); }
+        s.by_index = s.by_test;
+        s.by_proxy = s.by_test;
+        s.count    = cx.count();
+        s.size     = cx.size();
+        s.all      = cx.all();
+        s.any      = cx.any();
+        s.none     = cx.none();
+        s.eq_self  = cx == cx;
+        s.ne_self  = cx != cx;
+        T fresh{};
+        for (std::size_t i = 0; i < N; ++i) {
+            if (m.test(i)) { A::set(fresh, i, true); }
+        }
+        s.eq_fresh = cx == fresh;
+        s.fresh_eq = fresh == cx;
+        return s;
+    }
+    static auto snap_ref(Ref const& m) -> Snap
+    {
+        Snap s;
+        s.n    = N;
+        s.full = true;
+        for (std::size_t i = 0; i < N; ++i) { s.by_test.put(i, m.test(i)); }
+        s.count = m.count();
+        s.size  = m.size();
+        s.all   = m.all();
+        s.any   = m.any();
+        s.none  = m.none();
+        return s;
+    }
+    static auto check(char const* name, T& x, Ref const& m) -> std::string { return judge(name, snap(x, m), snap_ref(m)); }
+
+    static auto run(OpsCase const& k, int stats, std::size_t check_from) -> std::string
+    {
+        std::string err;
+        T a{}, b{};
+        Ref ma, mb;
+        bool whole = false, many = false, selfop = false;
+        std::size_t op_index = 0;
+        if (check_from == 0) {
+            err = check("default-constructed A", a, ma);
+            if (!err.empty()) { return err; }
+        }
+        for (auto const& op : k.ops) {
+            bool const tb   = (op.c & 1U) != 0;
+            bool const self = ((op.c >> 1) & 1U) != 0;
+            T& x            = tb ? b : a;
+            T& y            = tb ? a : b;
+            Ref& mx         = tb ? mb : ma;
+            Ref& my         = tb ? ma : mb;
+            auto const code = op.code % D_NCODES;
+            std::size_t const i = op.a % N;
+            if (stats > 1) { vf::count((std::string("dense.op.") + dcode_names[code]).c_str()); }
+            selfop |= self && (code == D_AND_ASSIGN || code == D_OR_ASSIGN || code == D_XOR_ASSIGN || code == D_COPY || code == D_SWAP);
+            switch (code) {
+            case D_FILL:
+                for (std::size_t q = 0; q < N; ++q) {
+                    bool const v = dense_bit(op.a, op.b, q);
+                    A::set(x, q, v);
+                    mx.set(q, v);
+                }
+                break;
+            case D_SET_ALL: x.set(); mx.set(); whole = true; break;
+            case D_RESET_ALL: x.reset(); mx.reset(); whole = true; break;
+            case D_FLIP_ALL: x.flip(); mx.flip(); whole = true; break;
+            case D_NOT: {
+                if constexpr (A::full_api) {
+                    T const& cx = x;
+                    y           = ~cx;
+                } else {
+                    T t = x;
+                    t.flip();
+                    y = t;
+                }
+                my    = ~mx;
+                whole = true;
+                break;
+            }
+            case D_AND_ASSIGN:
+                if (self) { x &= x; mx &= mx; } else { x &= y; mx &= my; }
+                whole = true;
+                break;
+            case D_OR_ASSIGN:
+                if (self) { x |= x; mx |= mx; } else { x |= y; mx |= my; }
+                whole = true;
+                break;
+            case D_XOR_ASSIGN:
+                if (self) { x ^= x; mx ^= mx; } else { x ^= y; mx ^= my; }
+                whole = true;
+                break;
+            case D_COPY:
+                if (self) {
+                    T& alias = x;
+                    x        = alias;
+                } else {
+                    y  = x;
+                    my = mx;
+                }
+                break;
+            case D_EQ: {
+                T const& cx = x;
+                T const& cy = y;
+                if ((cx == cy) != (mx == my) || (cx != cy) == (mx == my)) { err = fmt("operator==/!= differ from std::bitset (== is %s, std says %s)", (cx == cy) ? "true" : "false", (mx == my) ? "true" : "false"); }
+                break;
+            }
+            case D_FLIP_POS: A::flip(x, i); mx.flip(i); break;
+            case D_SET_POS: A::set(x, i, (op.b & 1U) != 0); mx.set(i, (op.b & 1U) != 0); break;
+            case D_AND:
+            case D_OR:
+            case D_XOR: {
+                T const& cx   = x;
+                T const& cy   = self ? x : y;
+                Ref const& ry = self ? mx : my;
+                T r           = code == D_AND ? (cx & cy) : code == D_OR ? (cx | cy) : (cx ^ cy);
+                Ref mr        = code == D_AND ? (mx & ry) : code == D_OR ? (mx | ry) : (mx ^ ry);
+                err           = check("result of binary operator", r, mr);
+                x             = r;
+                mx            = mr;
+                whole         = true;
+                break;
+            }
+            case D_SWAP: {
+                using etl::swap;
+                if (self) {
+                    T& alias = x;
+                    swap(x, alias);
+                } else {
+                    swap(x, y);
+                    std::swap(mx, my);
+                }
+                break;
+            }
+            default: break;
+            }
+            many |= mx.count() >= 256 || my.count() >= 256;
+            if (err.empty() && op_index++ >= check_from) {
+                err = check(tb ? "B" : "A", x, mx);
+                if (err.empty()) { err = check(tb ? "A" : "B", y, my); }
+            }
+            if (!err.empty()) {
+                err = std::string("after ") + dcode_names[code] + ": " + err;
+                break;
+            }
+        }
+        bool const has_padding = (N % A::word_bits) != 0;
+        if (stats > 1) {
+            vf::label("dense.hist.whole_set_operation", whole);
+            vf::label("dense.hist.self_operation (x op= x, x = x, swap(x,x))", selfop);
+            if (N >= 256) { vf::label("dense.hist.at_least_256_bits_set (N>=256)", many); }
+        }
+        if (stats == 2 && whole && (has_padding || many)) { vf::nontrivial(vf::digest(k)); }
+        if (stats == 1 && whole && (has_padding || many)) { vf::nontrivial_count(); }
+        return err;
+    }
+};
+
 struct Config {
     std::string name;
     std::string (*run)(OpsCase const&, int, std::size_t);
     bool full_api;
     std::size_t width;
+    bool dense{false};
 };
 
 template <std::size_t N>
@@ -580,16 +869,36 @@ auto add_width(std::vector<Config>& out) -> void
     out.push_back(Config{"basic_bitset<" + n + ",uint32_t>", &W::template Runner<typename W::template AdBasic<std::uint32_t>>::run, false, N});
     out.push_back(Config{"basic_bitset<" + n + ",uint64_t>", &W::template Runner<typename W::template AdBasic<std::uint64_t>>::run, false, N});
 }
-template <std::size_t... Ns>
-auto make_configs() -> std::vector<Config>
+template <std::size_t N>
+auto add_dense(std::vector<Config>& out) -> void
 {
-    std::vector<Config> out;
+    using W      = Width<N>;
+    auto const n = std::to_string(N);
+    out.push_back(Config{"bitset<" + n + "> (dense)", &W::template Dense<typename W::AdBitset>::run, true, N, true});
+    out.push_back(Config{"basic_bitset<" + n + ",uint8_t> (dense)", &W::template Dense<typename W::template AdBasic<std::uint8_t>>::run, false, N, true});
+    out.push_back(Config{"basic_bitset<" + n + ",uint16_t> (dense)", &W::template Dense<typename W::template AdBasic<std::uint16_t>>::run, false, N, true});
+    out.push_back(Config{"basic_bitset<" + n + ",uint32_t> (dense)", &W::template Dense<typename W::template AdBasic<std::uint32_t>>::run, false, N, true});
+    out.push_back(Config{"basic_bitset<" + n + ",uint64_t> (dense)", &W::template Dense<typename W::template AdBasic<std::uint64_t>>::run, false, N, true});
+}
+template <std::size_t... Ns>
+auto make_configs(std::vector<Config>& out) -> void
+{
     (add_width<Ns>(out), ...);
-    return out;
+}
+template <std::size_t... Ns>
+auto make_dense(std::vector<Config>& out) -> void
+{
+    (add_dense<Ns>(out), ...);
 }
 auto configs() -> std::vector<Config> const&
 {
-    static auto const c = make_configs<C17_WIDTHS>();
+    // the full-runner widths first (the replay corpus refers to them by index), then the dense-only widths
+    static auto const c = [] {
+        std::vector<Config> out;
+        make_configs<C17_WIDTHS>(out);
+        make_dense<C17_DENSE>(out);
+        return out;
+    }();
     return c;
 }
 
@@ -604,7 +913,7 @@ auto describe(OpsCase const& k) -> std::string
 {
     auto const& cfg = configs()[k.cfg % configs().size()];
     std::string s   = cfg.name + " :";
-    for (auto const& o : k.ops) { s += " " + std::string(code_names[o.code % NCODES]) + "[" + std::to_string(o.a) + "," + std::to_string(o.b) + "," + std::to_string(o.c) + "]"; }
+    for (auto const& o : k.ops) { s += " " + std::string(cfg.dense ? dcode_names[o.code % D_NCODES] : code_names[o.code % NCODES]) + "[" + std::to_string(o.a) + "," + std::to_string(o.b) + "," + std::to_string(o.c) + "]"; }
     return s;
 }
 
@@ -648,6 +957,11 @@ void enum_values_x_ops(vf::Ctx& c, std::uint32_t ci, std::uint64_t& n)
                         if (ovl != 0 && modes >= 12) { continue; }       // the short overloads only exist for the default characters
                         one({}, RawOp{CTOR_STRING, bits, b, modes << 1});
                         if (modes % 4U == 0) { one({}, RawOp{CTOR_CSTR, bits, b, modes << 1}); }
+                        if (ovl == 0) {
+                            if (modes < 12) { one({}, RawOp{CTOR_STRING_CI, bits, b, modes << 1}); } // user-defined traits; zero/one are fixed to 'N'/'y'
+                            one({}, RawOp{CTOR_STRING_W, bits, b, modes << 1});
+                            one({}, RawOp{CTOR_STRING_U16, bits, b, modes << 1});
+                        }
                     }
                 }
             }
@@ -656,7 +970,9 @@ void enum_values_x_ops(vf::Ctx& c, std::uint32_t ci, std::uint64_t& n)
     // unary ops and proxy ops on every value
     for (std::uint32_t v = 0; v < nv && ok; ++v) {
         std::vector<RawOp> const prefix{RawOp{CTOR_ULL, 0, v, 0}};
-        for (std::uint32_t code : {SET_ALL, RESET_ALL, FLIP_ALL, NOT, OBSERVE, COPY}) { one(prefix, RawOp{code, 0, 0, 0}); }
+        for (std::uint32_t code : {SET_ALL, RESET_ALL, FLIP_ALL, NOT, OBSERVE, COPY, SWAP}) { one(prefix, RawOp{code, 0, 0, 0}); }
+        one(prefix, RawOp{COPY, 0, 0, 2}); // x = x
+        one(prefix, RawOp{SWAP, 0, 0, 2}); // swap(x, x)
         for (std::uint32_t i = 0; i < NS; ++i) {
             for (std::uint32_t code : {SET_POS, REF_ASSIGN_BOOL}) {
                 one(prefix, RawOp{code, i, 0, 0});
@@ -687,12 +1003,15 @@ void fixed_cases(vf::Ctx& c)
 {
     if (c.shard != 0) { return; }
     for (std::uint32_t ci = 0; ci < configs().size(); ++ci) {
+        if (configs()[ci].dense) { continue; }
         auto const top = static_cast<std::uint32_t>(configs()[ci].width - 1);
         std::vector<std::vector<RawOp>> hs{
             {{SET_ALL, 0, 0, 0}, {RESET_POS, top, 0, 0}, {FLIP_ALL, 0, 0, 0}, {FLIP_ALL, 0, 0, 0}, {SET_POS, top, 1, 0}},
             {{FLIP_ALL, 0, 0, 0}, {NOT, 0, 0, 0}, {EQ, 0, 0, 0}, {XOR_ASSIGN, 0, 0, 0}, {FLIP_ALL, 0, 0, 1}, {OR_ASSIGN, 0, 0, 0}},
             {{CTOR_ULL, 1, 0, 0}, {CTOR_ULL, 3, 12345, 1}, {AND, 0, 0, 0}, {NOT, 0, 0, 0}, {XOR, 0, 0, 1}},
             {{CTOR_STRING, 0xFFFFFFFFU, 2, 0}, {CTOR_CSTR, 0x55555555U, 2, 1}, {EQ, 0, 0, 0}, {CTOR_STRING, 1, 1, 0}, {CTOR_STRING, 1, 3, 2 << 1}},
+            {{CTOR_STRING_CI, 0xA5A5A5A5U, 2, 0}, {CTOR_STRING_W, 0x0F0F0F0FU, 2, 1}, {EQ, 0, 0, 0}, {CTOR_STRING_U16, 0x33333333U, 3, (4 + 12) << 1}, {CTOR_STRING_CI, 3, 2, 5 << 1}},
+            {{CTOR_ULL, 1, 0, 0}, {AND_ASSIGN, 0, 0, 2}, {OR_ASSIGN, 0, 0, 2}, {COPY, 0, 0, 2}, {SWAP, 0, 0, 2}, {XOR_ASSIGN, 0, 0, 2}, {SWAP, 0, 0, 0}},
         };
         for (auto const& h : hs) {
             OpsCase k;
@@ -709,6 +1028,42 @@ void fixed_cases(vf::Ctx& c)
     }
 }
 
+// dense widths: every pair of densities for A and B, then every whole-set / compound / self operation (sharded)
+void dense_cases(vf::Ctx& c)
+{
+    std::uint64_t n = 0;
+    for (std::uint32_t ci = 0; ci < configs().size(); ++ci) {
+        if (!configs()[ci].dense) { continue; }
+        for (std::uint32_t da = 0; da < 5; ++da) {
+            for (std::uint32_t db = 0; db < 5; ++db) {
+                std::vector<RawOp> const prefix{RawOp{D_FILL, da, 11U + da, 0}, RawOp{D_FILL, db, 29U + db, 1}};
+                std::vector<RawOp> ops;
+                for (std::uint32_t code : {D_FILL, D_SET_ALL, D_RESET_ALL, D_FLIP_ALL, D_NOT, D_AND_ASSIGN, D_OR_ASSIGN, D_XOR_ASSIGN, D_COPY, D_EQ, D_AND, D_OR, D_XOR, D_SWAP}) { ops.push_back(RawOp{code, da, 7, 0}); }
+                for (std::uint32_t code : {D_AND_ASSIGN, D_OR_ASSIGN, D_XOR_ASSIGN, D_COPY, D_AND, D_OR, D_XOR, D_SWAP}) { ops.push_back(RawOp{code, 0, 0, 2}); } // self forms
+                ops.push_back(RawOp{D_FLIP_POS, static_cast<std::uint32_t>(configs()[ci].width - 1), 0, 0});
+                ops.push_back(RawOp{D_SET_POS, 0, 1, 0});
+                bool first = true;
+                for (auto const& op : ops) {
+                    bool const check_prefix = first;
+                    first                   = false;
+                    if (!c.mine(n++)) { continue; }
+                    OpsCase k;
+                    k.cfg = ci;
+                    k.ops = prefix;
+                    k.ops.push_back(op);
+                    vf::Flight<OpsCase> fl("dense_x_op", k);
+                    vf::eval("dense_x_op");
+                    auto d = run_case(k, 1, check_prefix ? 0 : prefix.size());
+                    if (!d.empty()) {
+                        vf::mismatch("dense_x_op", k, d);
+                        return;
+                    }
+                }
+            }
+        }
+    }
+}
+
 } // namespace
 
 // Keep the resident set small: ASan's default 256 MB quarantine of freed blocks is far more than these harnesses need
@@ -719,14 +1074,15 @@ void vf_run(vf::Ctx& c)
 {
     std::uint64_t n = 0;
     for (std::uint32_t ci = 0; ci < configs().size(); ++ci) {
-        if (configs()[ci].width <= 9) { enum_values_x_ops(c, ci, n); }
+        if (configs()[ci].width <= 9 && !configs()[ci].dense) { enum_values_x_ops(c, ci, n); }
     }
     fixed_cases(c);
+    dense_cases(c);
     // E1: random histories of <= 40 ops over two bitsets, every type of every width of this unit (each shard has its own seed)
     for (std::uint32_t ci = 0; ci < configs().size(); ++ci) {
         auto const& cfg   = configs()[ci];
-        int const per_cfg = c.thorough() ? (cfg.width <= 33 ? 60000 : 40000) : (cfg.width <= 33 ? 2000 : 1000);
-        auto gen          = rc::gen::map(vf::gen_history(1, NCODES, 40), [ci](OpsCase k) {
+        int const per_cfg = cfg.dense ? (c.thorough() ? 4000 : 150) : c.thorough() ? (cfg.width <= 33 ? 60000 : 40000) : (cfg.width <= 33 ? 2000 : 1000);
+        auto gen          = rc::gen::map(cfg.dense ? vf::gen_history(1, D_NCODES, 16) : vf::gen_history(1, NCODES, 40), [ci](OpsCase k) {
             k.cfg = ci;
             return k;
         });
